@@ -167,7 +167,7 @@ func runC08(r *Run) {
 			okFail := false
 			for _, br := range ifsOnValue(f, eh.Value()) {
 				if s, ok := br.nilSlot(false); ok {
-					_, ret := reach(pointOfEdge(edge{br.If.Block(), s}), isReturn, nil, func(in ssa.Instruction) bool {
+					_, ret := reachEdge(edge{br.If.Block(), s}, isReturn, nil, func(in ssa.Instruction) bool {
 						ci, ok := in.(ssa.CallInstruction)
 						if !ok || !strings.HasSuffix(calleeName(ci.Common()), ").SendStatus") {
 							return false
